@@ -7,7 +7,7 @@ import ast
 from ..cfg import Oracle, build_cfg
 from ..index import AnalysisError, FuncInfo, Repo, UNKNOWN, norm, unparse
 from ..report import Ctx, Obligation
-from ..util import Facts, LockSets, callee_attr, calls_in_node, cfg_nodes_with_call, lexical_locks
+from ..util import xtext, Facts, LockSets, callee_attr, calls_in_node, cfg_nodes_with_call, lexical_locks
 from ._chan import GB, RECVLOCK, message_registry
 from .C02 import check_handover_lock
 
@@ -35,7 +35,7 @@ def receiver_calls_with_locks(repo: Repo) -> list[tuple[FuncInfo, ast.Call, Func
         for c in repo.calls_in(fi):
             here = held | frozenset(lexical_locks(repo, fi, c))
             targets = list(repo.resolve_call(c, fi))
-            if fi.short == "Message.received" and isinstance(c.func, ast.Name):
+            if fi.short == "Message.received" and "_types" in xtext(repo, fi, c.func):
                 targets = [h for (_n, h) in reg.values()]
             for t in targets:
                 if t.short in ("WorkerGateway.executetask",) or t.name == "_perform_spawn":
